@@ -16,6 +16,7 @@ def check(ctx):
         "scope stack is only looked at from its top (contexts come from the innermost scope).")
     ctx.explanation += (" R9 the scope bundle (C10's rules): scopes opened on every path and refused only when the stack is full, released "
                         "scopes popped with nothing left behind, the stack looked at from its top only and the only per-thread context.")
+    ctx.explanation += (" Round 5: R7 also -- a child inherits the parent's whole token (no first()/next()/take on issue_collect_token() in fastrace::span).")
     ctx.not_decided = "absence of output for all programs (every path to the queue passes the filter; programs are not enumerated)."
     facts = ctx.facts("E")
     provrules.rule_root_sampling(ctx, facts, "R1")
